@@ -719,17 +719,25 @@ class InterpolatableFunction(ABC):
         else:
             appendPointsMax = np.array([])
 
-        appendValuesMin = np.asarray(self._functionImplementation(appendPointsMin))
-        appendValuesMax = np.asarray(self._functionImplementation(appendPointsMax))
+        # Only evaluate the function where there is something to append: implementations
+        # need not return an empty array for empty input (FreeEnergy returns one row,
+        # which shifted all values against their abscissae)
+        valueBlocks = [np.asarray(self._interpolationValues)]
+        if appendPointsMin.size > 0:
+            valueBlocks.insert(
+                0, np.asarray(self._functionImplementation(appendPointsMin))
+            )
+        if appendPointsMax.size > 0:
+            valueBlocks.append(
+                np.asarray(self._functionImplementation(appendPointsMax))
+            )
 
         # Ordering is important since interpolation needs the x values to be ordered.
         # This works, but could be made safer by rearranging the resulting arrays:
         xRange = np.concatenate(
             (appendPointsMin, self._interpolationPoints, appendPointsMax)
         )
-        fxRange: np.ndarray = np.concatenate(
-            (appendValuesMin, np.asarray(self._interpolationValues), appendValuesMax)
-        )
+        fxRange: np.ndarray = np.concatenate(valueBlocks)
 
         # Extensions narrower than the floating point spacing would repeat abscissae
         xRange, uniqueIndices = np.unique(xRange, return_index=True)
